@@ -2563,6 +2563,9 @@ def c12_tree_rules(ctx):
         ctx.check(len(eqs) + cmp_stmts >= 2, 'floor|%s|comparisons' % f.path, 'leaf and branch arms each compare expected with computed (found %d)' % (len(eqs) + cmp_stmts), f, f.line)
         # branch: true only after every child verified: from rec false-edge no true
         e_t = core.guard_edges(f, [true_of('RawBtree::verify_checksum_helper')])
+        # the verdict of every child is acted upon: either tested (early exit on false) or and-accumulated
+        accum = any(st[0] == 'a' and st[2]['k'] == 'bin' and st[2]['op'] in ('BitAnd',) for b_ in f.blocks for st in b_['s'])
+        ctx.check(bool(e_t) or accum, 'guard-missing|%s|child-verdict' % f.path, 'the verdict of each child verification is tested (or and-accumulated), not merely overwritten', f, rec[0].line if rec else f.line)
         if rec:
             r = core.reach(f, start=(rec[0].bb, rec[0].idx), cut_edges=e_t)
             ctx.check(not any(core.point_reached(f, r, t.bb, t.idx) for t in trues), 'guard|%s|child-false' % f.path, 'a child that fails verification makes the parent fail', f, rec[0].line)
